@@ -47,6 +47,8 @@ fn check_year_days(y: i64, log: &mut Log) {
   let (dz, xz, dz2) = (t.get(y, 0).dn, t.get(y, 12).dn, t.get(y + 1, 0).dn);
   let (sb, nz, sb2) = (nearest_jiazi(dz), nearest_jiazi(xz), nearest_jiazi(dz2));
   let mut prev_mansion: Option<i64> = None;
+  // day nine star of the day before the year starts (continuity across 31 December -> 1 January)
+  let mut prev_nine: Option<i64> = if y >= 3 { guard(|| sd_of_dn(lo - 1).get_sixty_cycle_day().get_nine_star().get_index() as i64).ok() } else { None };
   for n in lo..=hi {
     let key = cal::fmt_dn(n);
     let g = match t.governing_day(n) {
@@ -119,10 +121,30 @@ fn check_year_days(y: i64, log: &mut Log) {
       if ren != (lm.abs() - 1 + ldd - 1).rem_euclid(6) {
         out.push(("minor-ren", format!("{}", ren), format!("{}", (lm.abs() - 1 + ldd - 1).rem_euclid(6))));
       }
-      (out, m28, lm)
+      let nine_now = guard(|| scd.get_nine_star().get_index() as i64).ok();
+      (out, m28, lm, nine_now)
     });
     match r {
-      Ok((v, m28, lm)) => {
+      Ok((v, m28, lm, nine_now)) => {
+        // continuity: the star moves by exactly one step per day, except that the sequence restarts
+        // (same star on two consecutive days) on a turning Jiazi day
+        if let (Some(p), Some(c)) = (prev_nine, nine_now) {
+          let d = (c - p).rem_euclid(9);
+          let turning = n == sb || n == nz || n == sb2;
+          if !(d == 1 || d == 8 || turning) {
+            // the library computes 1 January .. (winter Jiazi - 1) by counting back from the coming winter
+            // Jiazi day instead of continuing the descent from the previous summer's; the two agree only
+            // when that descent lasts 180 days.  With 240 days the star jumps at the year join.
+            let nz_prev = if y >= 2 { nearest_jiazi(t.get(y - 1, 12).dn) } else { nz };
+            if n == lo && (sb - nz_prev) % 9 != 0 {
+              log.count("day.year_joins_after_a_240_day_descent", 1);
+              log.violate(format!("C17/day-nine-star-year-join/{}", key), "day nine star across 31 December -> 1 January", key.clone(), format!("{} after {}", c, p), format!("one step down (the descent from {} lasts {} days)", cal::fmt_dn(nz_prev), sb - nz_prev));
+            } else {
+              log.violate(format!("C17/day-nine-star-continuity/{}", key), "day nine star moves one step per day", key.clone(), format!("{} after {}", c, p), "one step up or down (or a restart on a turning Jiazi day)".into());
+            }
+          }
+        }
+        prev_nine = nine_now;
         if lm < 0 {
           log.count("day.leap_month_days", 1);
           log.nt(1);
@@ -139,6 +161,7 @@ fn check_year_days(y: i64, log: &mut Log) {
       }
       Err(msg) => {
         prev_mansion = None;
+        prev_nine = None;
         log.violate(format!("C17/day-panic/{}", key), "day almanac", key.clone(), format!("panic: {}", msg), "no panic".into());
       }
     }
